@@ -32,7 +32,8 @@ try:
     res["suite_with_patch"] = "pass" if rc == 0 else "FAIL"
     demo = os.path.join(wt, sub, "zz_seed_demo_test.go")
     shutil.copy(src + "/demo_test.go", demo)
-    cmd = "timeout 200 go test -vet=off -count=1 -timeout 120s -run '%s' %s" % (runre, "./" + sub if sub else ".")
+    racef = "-race " if "-race" in first else ""
+    cmd = "timeout 300 go test %s-vet=off -count=1 -timeout 200s -run '%s' %s" % (racef, runre, "./" + sub if sub else ".")
     fails = 0
     for i in range(3):
         rc, out = sh(cmd, cwd=wt)
